@@ -279,6 +279,40 @@ def run_structural(ctx):
         except Unsupported as e:
             recs.append({"name": name, "kind": "structural", "status": "unknown", "backend": f"ast:{e}", "time": 0.0,
                          "tags": tags_of(name), "trace": [], "nhyps": 0, "line": None})
+    # completeness of the invariant argument: every method defined in the body of a class that has a verified repo contract with
+    # "inv": True must itself be under contract (an uncontracted method could break the invariant the others assume)
+    import ast as _ast
+    inv_classes = {}
+    for cn, c in ctx.contracts.items():
+        if c.kind == "repo" and c.verify and c.inv and "." in c.source and c.file:
+            inv_classes.setdefault((c.file, c.source.rsplit(".", 1)[0]), set())
+    for cn, c in ctx.contracts.items():
+        if c.kind in ("repo", "callback") and c.file and "." in c.source:
+            key = (c.file, c.source.rsplit(".", 1)[0])
+            if key in inv_classes:
+                inv_classes[key].add(c.source.rsplit(".", 1)[1])
+    allowed = {}
+    for m in ctx.sidecars.values():
+        for k, v in getattr(m, "UNCONTRACTED_OK", {}).items():
+            allowed.setdefault(k, set()).update(v)
+    for (f, cls), have in sorted(inv_classes.items()):
+        try:
+            src = ctx.source(f)
+            node = None
+            body = src.tree.body
+            for part in cls.split("."):
+                node = next((n for n in body if isinstance(n, _ast.ClassDef) and n.name == part), None)
+                if node is None:
+                    break
+                body = node.body
+            if node is None:
+                continue
+            missing = sorted(n.name for n in node.body if isinstance(n, _ast.FunctionDef) and n.name not in have and n.name not in allowed.get(cls, set()))
+            name = f"every method of {cls} (a class whose invariant the contracts rely on) is under contract"
+            recs.append({"name": name, "kind": "structural", "status": "unsat" if not missing else "unknown", "backend": "ast" if not missing else f"ast: methods without a contract: {missing}",
+                         "time": 0.0, "tags": [], "trace": [], "nhyps": 0, "line": None, "goal": f"methods without contract: {missing}", "model": {}})
+        except Unsupported:
+            pass
     return {"label": "structural", "contract": None, "obligations": recs, "error": None, "unsupported": None, "wall_s": 0.0, "lemma": True}
 
 
